@@ -103,12 +103,15 @@ func shortVar(v string) string {
 
 func defaultEnv() envConf { return mkEnv("default", "default", map[string]string{}) }
 
-// quickEnvs: the default environment and each single opt-in.
+// quickEnvs: the default environment, each single opt-in, and one all-negative environment.
 func quickEnvs() []envConf {
 	out := []envConf{defaultEnv()}
 	for _, v := range allVars {
 		out = append(out, mkEnv("only-"+shortVar(v), "single", map[string]string{v: "1"}))
 	}
+	// every variable set to an explicit negative: must behave like the default environment
+	out = append(out, mkEnv("all-negative", "falsy", map[string]string{
+		globalVar: "false", "UNSAFE_ALLOW_SIGN_INPROC": "0", "UNSAFE_ALLOW_SIGN_IPC": "no", "UNSAFE_RPC_SIGNING_HTTP": "off", "UNSAFE_RPC_SIGNING_WS": ""}))
 	return out
 }
 
